@@ -2,4 +2,4 @@ From Coq Require Import ExtrOcamlBasic.
 From Coq Require Import ZArith.
 From MT Require Import Tls.TlsTreeModel Tls.TlsDestroyModel.
 Extraction Language OCaml.
-Separate Extraction Z.div_eucl Z.add Z.mul Z.opp consts empty set get fini calls_of frees_of reads_of.
+Separate Extraction Z.div_eucl Z.add Z.mul Z.opp consts cfg_plain cfg_tagged empty set get fini calls_of frees_of reads_of.
